@@ -16,6 +16,10 @@
    enumeration order 0..0, 0..01, ... is non-decreasing (inverse: non-increasing).  It is not
    monotonicity in the Boolean lattice.  *)
 From Coq Require Import Permutation Sorted.
+(* (the files of the Circuit side come first: Model/WF.v has its own arity_ok, FuncProto's is the one meant below) *)
+Require Import Cirbo.Model.WF Cirbo.Generated.CircuitCore Cirbo.Generated.CircuitAlgos Cirbo.Generated.CircuitProtoGen.
+Require Import Cirbo.Proofs.CircuitAlgosGen Cirbo.Proofs.CircuitAlgosGen2 Cirbo.Proofs.CircuitProtoGenLib
+        Cirbo.Proofs.CircuitProtoGenSum.
 Require Import Cirbo.Model.Base Cirbo.Model.Gate Cirbo.Model.Circuit Cirbo.Model.Eval
         Cirbo.Model.FuncProto.
 Require Import Cirbo.Proofs.FuncProtoEnum Cirbo.Proofs.FuncProtoLoops Cirbo.Proofs.FuncProtoQueries
@@ -316,3 +320,62 @@ Proof. exact truth_table_regenerated. Qed.
 Example C12_truth_table_regenerated_define_applies : forall table t,
   tm_make table = Ok t -> resolve_input_size (tm_table t) = Ok (tm_n t).
 Proof. exact tm_make_shape. Qed.
+
+(* ---- the same tie for the third class: the protocol methods of Circuit ----
+
+   Generated/CircuitProtoGen.v is produced from cirbo/core/circuit/circuit.py by translator/t25_circuit_proto.py on
+   every check, statement by statement, with the machinery of T11 (loops with early return, next() on iterators,
+   in-place item stores) on the circuit state of T9 / T10: gen_evaluate / gen_evaluate_at / gen_input_size are the
+   functions T10 regenerates (Circuit.evaluate / evaluate_at / get_truth_table themselves are tied by
+   C02_algorithms_regenerated), gen_input_iterator_with_fixed_sum the one of C12_truth_table_regenerated above;
+   Circuit.gates_number is regenerated by T16 (C16_codec_regenerated).  Each regenerated method equals the function
+   that FuncProto.run_query runs for ClsCircuit on circ_rep c, i.e. the function the query theorems above are about.
+   The fuel parameters (Python has none) are those of the model's evaluators, as in C02.
+
+   The generated code carries the GateStates that evaluate returns (tp.cast is the identity) while the hand model
+   turns them into bools and would report an Undefined as GateStateError; the last two conjuncts show that no
+   Undefined comes out of Boolean inputs, for any circuit, so the equalities need no hypothesis about values.
+   fuel_ok c = fuel_suffices c \/ ~ has_self_loop c is the condition under which T10's evaluators equal the model's
+   (the model's evaluators do not run out of fuel on Boolean vectors, or no gate is its own operand); it holds
+   whenever the circuit computes a function (the hypothesis `circuit_computes` inside represented3) and for every
+   well-formed circuit.  index_of_output has no counterpart in the hand model: it is specified directly (first
+   index of the label). *)
+Theorem C12_circuit_protocol_regenerated :
+  (forall c, gen_output_size c = r_m (circ_rep c)) /\
+  (forall c l i, gen_index_of_output c l = Ok i <->
+                 nth_error (outputs c) i = Some l /\ forall j, j < i -> nth_error (outputs c) j <> Some l) /\
+  (forall c l, ~ In l (outputs c) -> gen_index_of_output c l = Err GateDoesntExistError) /\
+  (forall c, fuel_ok c ->
+     gen_is_constant outputs_fuel outputs_fuel c = g_is_constant (circ_rep c) /\
+     (forall j : nat, gen_is_constant_at at_fuel at_fuel c (Z.of_nat j) = g_is_constant_at (circ_rep c) j) /\
+     (forall inverse, gen_is_monotone outputs_fuel c inverse = circ_is_monotone (circ_rep c) inverse) /\
+     (forall (j : nat) inverse,
+        gen_is_monotone_at at_fuel c (Z.of_nat j) inverse = circ_is_monotone_at (circ_rep c) j inverse) /\
+     gen_is_symmetric outputs_fuel outputs_fuel c = g_is_symmetric (circ_rep c) /\
+     (forall j : nat, gen_is_symmetric_at at_fuel at_fuel c (Z.of_nat j) = g_is_symmetric_at (circ_rep c) j) /\
+     (forall j i : nat,
+        gen_is_dependent_on_input_at at_fuel at_fuel c (Z.of_nat j) (Z.of_nat i) = g_is_dependent (circ_rep c) j i) /\
+     (forall j i : nat,
+        gen_is_output_equal_to_input at_fuel c (Z.of_nat j) (Z.of_nat i) = g_equal_to_input false (circ_rep c) j i) /\
+     (forall j i : nat,
+        gen_is_output_equal_to_input_negation at_fuel c (Z.of_nat j) (Z.of_nat i)
+        = g_equal_to_input true (circ_rep c) j i) /\
+     (forall j : nat,
+        gen_get_significant_inputs_of at_fuel at_fuel c (Z.of_nat j)
+        = rmap (map Z.of_nat) (g_significant (circ_rep c) j)) /\
+     (forall outs : list nat,
+        gen_find_negations_to_make_symmetric outputs_fuel outputs_fuel c (map Z.of_nat outs)
+        = g_find_negations (circ_rep c) outs)) /\
+  (forall c f n m, circuit_computes c f n m -> fuel_ok c) /\
+  (forall c, WF c -> fuel_ok c) /\
+  (forall c (x : bvec) vs, evaluate c (map inj x) = Ok vs -> ~ In U vs) /\
+  (forall c (x : bvec) j, evaluate_at c (map inj x) j <> Ok U).
+Proof. exact circuit_protocol_regenerated. Qed.
+
+(* outside the side condition T10's corner shows through: a gate that is its own operand makes the source raise
+   KeyError where the model's evaluator runs out of fuel (no Boolean function is computed either way) *)
+Example C12_circuit_protocol_corner :
+  ~ fuel_ok self_loop_circuit /\
+  gen_is_constant outputs_fuel outputs_fuel self_loop_circuit = Err PyKeyError /\
+  g_is_constant (circ_rep self_loop_circuit) = Err OutOfFuel.
+Proof. exact circuit_protocol_corner. Qed.
